@@ -151,6 +151,7 @@ def rule_guard(ctx) -> RuleResult:
         if n.ast is not None and not isinstance(n.ast, list)
         and any(isinstance(c, ast.Call) and isinstance(c.func, ast.Name) and c.func.id == fun for c in ast.walk(n.ast))
     ]
+    calls = [c for c in calls if c in dom]  # reachable ones
     if not calls:
         raise AnalysisError("Workspace._io_call: the call fun(...) was not found")
     used_modes = {m for (_, _, _, m, k) in gate_sites(ctx) if k == "io_call" and m}
